@@ -13,4 +13,4 @@ for pid in sys.argv[3:]:
         ok = r.get("applies") and r.get("existing_tests_pass_with_patch") and r.get("demo_fails_with_patch") and r.get("demo_passes_without_patch")
         if not ok:
             print("NOT CONFIRMED", pid, k, {x: r.get(x) for x in ("applies", "existing_tests_pass_with_patch", "demo_fails_with_patch", "demo_passes_without_patch")}); continue
-        subprocess.run([sys.executable, os.path.join(V, "lib/keepseed.py"), pid, r["dir"], "%s-%d" % (pid, k + off), json.dumps(r), "wave 3"], check=True)
+        subprocess.run([sys.executable, os.path.join(V, "lib/keepseed.py"), pid, r["dir"], "%s-%d" % (pid, k + off), json.dumps(r), "wave"], check=True)
